@@ -132,6 +132,7 @@ static void vr_world_init(void) {
 	vr_havoc_int(VR_I_AGGRT0); vr_havoc_int(VR_I_LC0); vr_havoc_int(VR_I_ALG0); vr_havoc_int(VR_I_RFCT); vr_havoc_int(VR_I_RFC_TSTALG);
 	vr_havoc_int(VR_I_RFC_SIGALG); vr_havoc_int(VR_I_CALPUBT); vr_havoc_int(VR_I_CALAGGRT); vr_havoc_int(VR_I_CART); vr_havoc_int(VR_I_PUBT);
 
+	g_vr_int[VR_I_RFC_TSTALG].value &= 0x7fffffffULL; g_vr_int[VR_I_RFC_SIGALG].value &= 0x7fffffffULL; g_vr_int[VR_I_ALG0].value &= 0x7fffffffULL;   /* stated bound: algorithm ids below 2^31 */
 	g_vr_chainlist.length = vr_chains_length; g_vr_chainlist.elementAt = vr_chains_elementAt;
 	g_vr_linklist.length = vr_links_length; g_vr_linklist.elementAt = vr_links_elementAt;
 	g_vr_nchains = nondet_size(); g_vr_nlinks = nondet_size();
@@ -273,6 +274,27 @@ static spec_verdict vr_exp_AggregationChainInputHashAlgorithmVerification(const 
 	if (vr_signing_time(info->signature) == NULL) return SPEC_VANY;          /* mandatory time absent: malformed, no demand */
 	return spec_alg_rule_fails(spec_hashalg_status_at(vr_alg(vr_signed_hash(info->signature)), vr_time_ll(vr_u64(vr_signing_time(info->signature)))))
 		? SPEC_VFAIL(SPEC_VERR_INT(13)) : SPEC_VOK;
+}
+/* INT-17: algorithm of the RFC3161 record's output hash (= input hash of the first chain) at the record's aggregation time */
+static spec_verdict vr_exp_Rfc3161RecordOutputHashAlgorithmVerification(const KSI_VerificationContext *info) {
+	const KSI_AggregationHashChain *c;
+	if (!VR_INFO_OK(info) || info->signature->rfc3161 == NULL) return SPEC_VNA;
+	c = vr_first_chain(info->signature);
+	if (c == NULL || c->inputHash == NULL) return SPEC_VNA;
+	if (info->signature->rfc3161->aggregationTime == NULL) return SPEC_VANY;
+	return spec_alg_rule_fails(spec_hashalg_status_at(vr_alg(c->inputHash), vr_time_ll(info->signature->rfc3161->aggregationTime->value)))
+		? SPEC_VFAIL(SPEC_VERR_INT(17)) : SPEC_VOK;
+}
+/* INT-14: the two algorithms the RFC3161 record is composed with (TST info, signed attributes) at its aggregation time;
+ * stated bound: algorithm ids below 2^31 */
+static spec_verdict vr_exp_Rfc3161RecordHashAlgorithmVerification(const KSI_VerificationContext *info) {
+	const KSI_RFC3161 *r;
+	if (!VR_INFO_OK(info) || info->signature->rfc3161 == NULL) return SPEC_VNA;
+	r = info->signature->rfc3161;
+	if (r->aggregationTime == NULL || r->sigAttrAlgo == NULL || r->tstInfoAlgo == NULL) return SPEC_VANY;
+	return (spec_alg_rule_fails(spec_hashalg_status_at((long long)r->sigAttrAlgo->value, vr_time_ll(r->aggregationTime->value))) ||
+	        spec_alg_rule_fails(spec_hashalg_status_at((long long)r->tstInfoAlgo->value, vr_time_ll(r->aggregationTime->value))))
+		? SPEC_VFAIL(SPEC_VERR_INT(14)) : SPEC_VOK;
 }
 /* INT-03: aggregation root (tempData, computed by the consistency rule) equals the calendar chain's input hash */
 static spec_verdict vr_exp_CalendarHashChainInputHashVerification(const KSI_VerificationContext *info, const KSI_DataHash *aggrOut) {
